@@ -12,6 +12,10 @@ import logging
 
 logging.disable(logging.CRITICAL)
 
+from bounded import codec_common as cc      # noqa: E402
+
+cc.use_fresh_extensions()                   # the compiled record builder is rebuilt from the .pyx sources of the tree under test
+
 
 def emit(d):
     print("BOUNDED " + json.dumps(d, default=str))
@@ -27,8 +31,10 @@ async def one(prefill, nsend, broker_ts, log_start, magic_compress):
         builder.append(timestamp=5000 + i, key=b"pre%d" % i, value=b"p")
     batch = MessageBatch(tp, builder, 30, 0)
     futs = []
+    # "that very record (same key, value and headers)": an empty value and a tombstone (None) are different records
+    vals = [b"v0", b"", None, b"v3"]
     for i in range(nsend):
-        f = batch.append(b"k%d" % i, b"v%d" % i, 7000 + 10 * i)
+        f = batch.append(b"k%d" % i, vals[i % 4], 7000 + 10 * i)
         if f is None:
             return "append refused record %d" % i
         futs.append(f)
@@ -50,9 +56,10 @@ async def one(prefill, nsend, broker_ts, log_start, magic_compress):
             problems.append("send #%d never resolved" % i)
             continue
         md = f.result()
-        where = [(off, ts) for off, k, v, ts in recs if k == b"k%d" % i and v == b"v%d" % i]
+        where = [(off, ts) for off, k, v, ts in recs if k == b"k%d" % i and v == vals[i % 4]]
         if len(where) != 1:
-            problems.append("record #%d occurs %d times in the built batch" % (i, len(where)))
+            problems.append("record #%d (key k%d, value %r) occurs %d times in the built batch; records with that key: %r"
+                            % (i, i, vals[i % 4], len(where), [(off, v) for off, k, v, ts in recs if k == b"k%d" % i]))
             continue
         rel, ts = where[0]
         want_ts = ts if broker_ts == -1 else broker_ts
